@@ -947,6 +947,371 @@ theorem query_after_any_history (cfg : Cfg) (vw : View) (ops : List (Op V)) (hg 
 
 /-! ## non-vacuity: the hypotheses are met by concrete runs of the driver's instance -/
 
+/-! ## 12. the envelope over all histories; a first message handed over before the connection is registered
+
+`SessionsImpl.OnSessionCreate` / `ProcessMessage` run on the connection's reader goroutine and only POST to the
+front-end: while the front-end is busy the first message of a fresh connection is queued before the connection has
+an id.  `stepOpenReq` is what the front-end then does (`AddSession`, then the message task, which reads the id of
+its session when it runs).  The theorems below need no guard and no hypothesis on the state. -/
+
+/-- every client message that is forwarded at all names ITS connection -/
+theorem forwarded_envelope_names_the_connection (cfg : Cfg) (s : State V) (c : Conn) (svcType : String) (ntf : Bool)
+    (script : List (SOp V)) (a : String) (e : Envelope) (rs : List (Res V)) (r : Resp)
+    (h : (stepF cfg dr s (.req c svcType ntf script)).obs = .ran a (some e) rs r) :
+    e.frontId = c.1 ∧ e.sessionId = c.2 ∧ ∃ m, lget s.fronts c = some m ∧ frontGetID m = some e.uid := by
+  have h' : ∃ r', (step cfg dr s (.req c svcType ntf script)).obs = .ran a (some e) rs r' := by
+    simp only [stepF, silence] at h
+    split at h
+    · rename_i heq
+      split at h <;> (cases h; exact ⟨_, heq⟩)
+    · rename_i hne
+      exact ⟨r, h⟩
+  obtain ⟨r', h'⟩ := h'
+  simp only [step, stepReq] at h'
+  split at h'
+  · cases h'
+  · rename_i m hm
+    split at h'
+    · cases h'
+    · split at h'
+      · cases h'
+      · split at h'
+        · cases h'
+        · split at h'
+          · cases h'
+          · split at h'
+            · cases h'
+            · rename_i uid hid
+              cases h'
+              exact ⟨rfl, rfl, m, hm, hid⟩
+
+/-- the first message of a connection, handed over before the front-end has registered it (with or without the
+client hanging up right behind it): the connection gets the next id of its front, the message is handled in the
+state `AddSession` left (closed flag set when the client hung up) as a message of THAT connection, and if it is
+forwarded its envelope carries that id and the front's name -/
+theorem first_message_before_registration_is_of_the_new_connection (cfg : Cfg) (s : State V) (f : String)
+    (svcType : String) (ntf : Bool) (script : List (SOp V)) (closeAfter : Bool) (hf : cfg.isFront f = true) :
+    let n := (lget s.next f).getD 0 + 1
+    let r := stepOpenReq cfg dr s f svcType ntf script closeAfter
+    let s1 := if closeAfter then markClosing (stepF cfg dr s (.openC f)).st (f, n) else (stepF cfg dr s (.openC f)).st
+    r.2 = some (f, n) ∧
+    r.1.st = (stepF cfg dr s1 (.req (f, n) svcType ntf script)).st ∧
+    r.1.obs = (stepF cfg dr s1 (.req (f, n) svcType ntf script)).obs ∧
+    ∀ a e rs rp, r.1.obs = .ran a (some e) rs rp → e.frontId = f ∧ e.sessionId = n := by
+  intro n r s1
+  have hobs : (stepF cfg dr s (.openC f)).obs = .opened n := by
+    simp [stepF, step, hf, silence, n]
+  have hr : r = (⟨(stepF cfg dr s1 (.req (f, n) svcType ntf script)).st,
+      (stepF cfg dr s1 (.req (f, n) svcType ntf script)).obs,
+      (stepF cfg dr s (.openC f)).evs ++ (stepF cfg dr s1 (.req (f, n) svcType ntf script)).evs,
+      (stepF cfg dr s (.openC f)).gone ++ (stepF cfg dr s1 (.req (f, n) svcType ntf script)).gone⟩, some (f, n)) := by
+    simp only [r, s1, stepOpenReq, hobs]
+  refine ⟨by rw [hr], by rw [hr], by rw [hr], ?_⟩
+  intro a e rs rp h
+  rw [hr] at h
+  have := forwarded_envelope_names_the_connection (dr := dr) cfg _ (f, n) svcType ntf script a e rs rp h
+  exact ⟨this.1, this.2.1⟩
+
+/-- the handover is a two-operation history (`open`, then the request of the connection just opened): every
+theorem over `run` (fold of the writes, unique keys, reserved keys, envelope) covers it -/
+theorem handover_is_open_then_request (cfg : Cfg) (vw : View) (s : State V) (f : String)
+    (svcType : String) (ntf : Bool) (script : List (SOp V)) (hf : cfg.isFront f = true) :
+    let n := (lget s.next f).getD 0 + 1
+    let r := stepOpenReq cfg (defaultRoute cfg vw) s f svcType ntf script
+    (r.1.st, r.1.evs) = run cfg vw s [.openC f, .req (f, n) svcType ntf script] := by
+  intro n r
+  have hobs : (stepF cfg (defaultRoute cfg vw) s (.openC f)).obs = .opened n := by
+    simp [stepF, step, hf, silence, n]
+  simp [r, stepOpenReq, hobs, run, nextView]
+
+/-- not a forward event -/
+def NotFwd : Ev V → Prop
+  | .fwd _ _ _ _ _ => False
+  | _ => True
+
+theorem sstep_evs_notFwd (cfg : Cfg) (s : State V) (sess : Sess V) (kept : Option String) (op : SOp V) :
+    ∀ e ∈ (sstep cfg s sess kept op).evs, NotFwd e := by
+  intro e he
+  rcases write_events_are_sets_and_pushes cfg s sess kept op with h | ⟨c, k, v, _, h⟩ | ⟨b, kvs, _, _, h⟩
+  · rw [h] at he; cases he
+  · rw [h] at he; simp at he; subst he; trivial
+  · rw [h] at he; simp at he; subst he; trivial
+
+theorem runScript_evs_notFwd (cfg : Cfg) (s : State V) (sess : Sess V) (kept : Option String) (sc : List (SOp V)) :
+    ∀ e ∈ (runScript cfg s sess kept sc).evs, NotFwd e := by
+  induction sc generalizing s sess kept with
+  | nil => intro e he; simp [runScript] at he
+  | cons op ops ih =>
+    intro e he
+    simp only [runScript, List.mem_append] at he
+    rcases he with he | he
+    · exact sstep_evs_notFwd cfg s sess kept op e he
+    · exact ih _ _ _ e he
+
+/-- the events of one step: either none of them is a forward, or the step is a client message that was
+forwarded, the forward is the FIRST event, it names the connection and carries the uid of its map as of then -/
+theorem step_evs_shape (cfg : Cfg) (s : State V) (op : Op V) :
+    (∀ e ∈ (step cfg dr s op).evs, NotFwd e) ∨
+    ∃ c t id rest m, (step cfg dr s op).evs = Ev.fwd c t id c.1 c.2 :: rest ∧ (∀ e ∈ rest, NotFwd e) ∧
+      lget s.fronts c = some m ∧ frontGetID m = some id := by
+  cases op with
+  | req c svcType ntf script =>
+    simp only [step, stepReq]
+    split
+    · left; intro e he; simp at he
+    · rename_i m hm
+      split
+      · left; intro e he; simp at he
+      · split
+        · left; exact runScript_evs_notFwd _ _ _ _ _
+        · split
+          · left; intro e he; simp at he
+          · split
+            · left; intro e he; simp at he
+            · split
+              · left; intro e he; simp at he
+              · rename_i uid hid
+                right
+                exact ⟨c, _, uid, _, m, rfl, runScript_evs_notFwd _ _ _ _ _, hm, hid⟩
+  | openC f =>
+    left; intro e he
+    simp only [step] at he
+    split at he <;> simp at he
+    subst he; trivial
+  | closeC c =>
+    left; intro e he
+    simp only [step] at he
+    repeat' split at he
+    all_goals simp at he
+  | mk h a c u =>
+    left; intro e he
+    simp only [step] at he
+    repeat' split at he
+    all_goals simp at he
+  | on h sc =>
+    left; intro e he
+    simp only [step] at he
+    repeat' split at he
+    all_goals first
+      | (simp at he; done)
+      | exact runScript_evs_notFwd _ _ _ _ _ e he
+  | snap => left; intro e he; simp [step] at he
+  | topo a b => left; intro e he; simp [step] at he
+  | pMkf c =>
+    left; intro e he
+    simp only [step] at he
+    split at he <;> simp at he
+    subst he; trivial
+  | pMkb h c u =>
+    left; intro e he
+    simp only [step] at he
+    repeat' split at he
+    all_goals simp at he
+  | pOnF c sc =>
+    left; intro e he
+    simp only [step] at he
+    repeat' split at he
+    all_goals first
+      | (simp at he; done)
+      | exact runScript_evs_notFwd _ _ _ _ _ e he
+  | pOnB h sc =>
+    left; intro e he
+    simp only [step] at he
+    repeat' split at he
+    all_goals first
+      | (simp at he; done)
+      | exact runScript_evs_notFwd _ _ _ _ _ e he
+
+omit [LawfulJVal V] in
+theorem mem_notFwd_absurd {l : List (Ev V)} {pre post : List (Ev V)} {c t id fr sid}
+    (hl : ∀ e ∈ l, NotFwd e) (h : l = pre ++ Ev.fwd c t id fr sid :: post) : False := by
+  have : Ev.fwd c t id fr sid ∈ l := by rw [h]; simp
+  exact hl _ this
+
+/-- one whole turn: a forward event in its event list is the first event -/
+theorem stepF_fwd_first (cfg : Cfg) (s : State V) (op : Op V) (pre post : List (Ev V)) (c : Conn) (t id fr : String) (sid : Nat)
+    (h : (stepF cfg dr s op).evs = pre ++ Ev.fwd c t id fr sid :: post) :
+    pre = [] ∧ fr = c.1 ∧ sid = c.2 ∧ ∃ m, lget s.fronts c = some m ∧ frontGetID m = some id := by
+  simp only [stepF] at h
+  have hcl : ∀ e ∈ (flush (step cfg dr s op).st).2.map (fun e => Ev.closed (V := V) e.1), NotFwd e := by
+    intro e he; simp only [List.mem_map] at he; obtain ⟨x, _, hx⟩ := he; subst hx; trivial
+  rcases step_evs_shape (dr := dr) cfg s op with hn | ⟨c', t', id', rest, m, hev, hrest, hm, hid⟩
+  · exfalso
+    refine mem_notFwd_absurd (l := (step cfg dr s op).evs ++ _) ?_ h
+    intro e he
+    rcases List.mem_append.mp he with he | he
+    · exact hn e he
+    · exact hcl e he
+  · rw [hev] at h
+    cases pre with
+    | nil =>
+      simp only [List.nil_append, List.cons_append, List.cons.injEq] at h
+      obtain ⟨h1, _⟩ := h
+      cases h1
+      exact ⟨rfl, rfl, rfl, m, hm, hid⟩
+    | cons x pre' =>
+      exfalso
+      simp only [List.cons_append, List.cons.injEq] at h
+      refine mem_notFwd_absurd (l := rest ++ _) ?_ h.2
+      intro e he
+      rcases List.mem_append.mp he with he | he
+      · exact hrest e he
+      · exact hcl e he
+
+/-- over ALL histories (no guard, any start state): wherever a forward event stands in the event list, it names the
+connection the message came from (front name, connection id), that connection's map — the fold of the events
+BEFORE it — exists, and the envelope carries the uid that map holds -/
+theorem every_forward_carries_identity_as_of_then (cfg : Cfg) (vw : View) (s : State V) (ops : List (Op V))
+    (pre post : List (Ev V)) (c : Conn) (t id fr : String) (sid : Nat)
+    (h : (run cfg vw s ops).2 = pre ++ Ev.fwd c t id fr sid :: post) :
+    fr = c.1 ∧ sid = c.2 ∧ ∃ m, replay c (lget s.fronts c) pre = some m ∧ frontGetID m = some id := by
+  induction ops generalizing s vw pre with
+  | nil => simp [run] at h
+  | cons op ops ih =>
+    simp only [run] at h
+    rcases List.append_eq_append_iff.mp h with ⟨a', h1, h2⟩ | ⟨c', h1, h2⟩
+    · -- pre = evs ++ a' : the forward lies in the rest of the history
+      have := ih _ _ a' h2
+      obtain ⟨hfr, hsid, m, hm, hid⟩ := this
+      refine ⟨hfr, hsid, m, ?_, hid⟩
+      rw [h1, replay_append, ← stepF_replay]
+      exact hm
+    · -- evs = pre ++ c', c' ++ rest = fwd :: post
+      cases c' with
+      | nil =>
+        simp only [List.append_nil] at h1
+        simp only [List.nil_append] at h2
+        have := ih _ _ [] (by simpa using h2.symm)
+        obtain ⟨hfr, hsid, m, hm, hid⟩ := this
+        refine ⟨hfr, hsid, m, ?_, hid⟩
+        rw [← h1, ← stepF_replay]
+        simpa using hm
+      | cons x xs =>
+        simp only [List.cons_append, List.cons.injEq] at h2
+        obtain ⟨hx, _⟩ := h2
+        subst hx
+        obtain ⟨hp, hfr, hsid, m, hm, hid⟩ := stepF_fwd_first (dr := defaultRoute cfg vw) cfg s op pre xs c t id fr sid h1
+        subst hp
+        exact ⟨hfr, hsid, m, by simpa using hm, hid⟩
+
+/-! ### the client hangs up right behind its first message (`RemoveSession` queued behind the message task) -/
+
+omit [LawfulJVal V] in
+theorem markClosing_mono (s : State V) (c c' : Conn) (h : c ∈ s.closing) : c ∈ (markClosing s c').closing := by
+  unfold markClosing
+  split
+  · exact h
+  · exact List.mem_cons_of_mem _ h
+
+omit [LawfulJVal V] in
+theorem markClosing_mem (s : State V) (c : Conn) : c ∈ (markClosing s c).closing := by
+  unfold markClosing
+  split
+  · rename_i h; simpa using h
+  · exact List.mem_cons_self
+
+omit [LawfulJVal V] in
+theorem deliver_closing (s : State V) (c : Conn) (j : Option (AL V)) : (deliver s c j).1.closing = s.closing := by
+  unfold deliver
+  split <;> rfl
+
+/-- a closed flag is never cleared by a statement -/
+theorem sstep_closing_mono (cfg : Cfg) (s : State V) (sess : Sess V) (kept : Option String) (op : SOp V) (c : Conn)
+    (h : c ∈ s.closing) : c ∈ (sstep cfg s sess kept op).st.closing := by
+  cases sess with
+  | front c0 =>
+    simp only [sstep, sstepFront]
+    split
+    · exact h
+    · cases op <;> simp only [] <;> first
+        | exact h
+        | (split <;> first | exact h | exact markClosing_mono _ _ _ h)
+  | back b =>
+    simp only [sstep]
+    cases op <;> simp only [sstepBack] <;> first
+      | exact h
+      | (split <;> first
+          | exact h
+          | (simp only [backPush]; repeat' split
+             all_goals first | exact h | (rw [deliver_closing]; exact h) | (simp_all [deliver_closing]))
+          | (simp only [backKick]; repeat' split
+             all_goals first | exact h | exact markClosing_mono _ _ _ h)
+          | (repeat' split
+             all_goals first | exact h | (rw [deliver_closing]; exact h) | (simp_all [deliver_closing])))
+
+theorem runScript_closing_mono (cfg : Cfg) (s : State V) (sess : Sess V) (kept : Option String) (sc : List (SOp V)) (c : Conn)
+    (h : c ∈ s.closing) : c ∈ (runScript cfg s sess kept sc).st.closing := by
+  induction sc generalizing s sess kept with
+  | nil => exact h
+  | cons op ops ih =>
+    simp only [runScript]
+    exact ih _ _ _ (sstep_closing_mono cfg s sess kept op c h)
+
+omit [LawfulJVal V] in
+theorem storeKept_closing (s : State V) (sess : Sess V) (kept : Option String) :
+    (storeKept s sess kept).closing = s.closing := by
+  unfold storeKept; split <;> rfl
+
+/-- a client message never clears a closed flag: the removal stays queued until the end of the turn -/
+theorem request_keeps_closed_flags (cfg : Cfg) (s : State V) (c0 c : Conn) (svcType : String) (ntf : Bool)
+    (script : List (SOp V)) (h : c ∈ s.closing) :
+    c ∈ (step cfg dr s (.req c0 svcType ntf script)).st.closing := by
+  simp only [step, stepReq]
+  repeat' split
+  all_goals first
+    | exact h
+    | exact runScript_closing_mono _ _ _ _ _ _ h
+    | (rw [storeKept_closing]; exact runScript_closing_mono _ _ _ _ _ _ h)
+
+/-- what the front-end relays for a message whose handler ran: the answer, or nothing for a notify -/
+theorem request_answer_ok_or_none (cfg : Cfg) (s : State V) (c : Conn) (svcType : String) (ntf : Bool)
+    (script : List (SOp V)) (a : String) (e : Option Envelope) (rs : List (Res V)) (r : Resp)
+    (h : (step cfg dr s (.req c svcType ntf script)).obs = .ran a e rs r) : r = .ok ∨ r = .none := by
+  simp only [step, stepReq] at h
+  repeat' split at h
+  all_goals first
+    | (cases h; done)
+    | (cases h; cases ntf <;> simp)
+
+/-- the client hung up right after its first message, before the front-end had registered the connection: the
+message is still handled as a message of that connection (the session exists when the message task runs; what a
+front-local handler sets is in the map the close handlers are handed), the answer is lost, and at the end of the
+turn the connection is gone — it does not stay registered -/
+theorem hangup_after_first_message_removes_the_connection (cfg : Cfg) (s : State V) (f : String)
+    (svcType : String) (ntf : Bool) (script : List (SOp V)) (hf : cfg.isFront f = true) :
+    let n := (lget s.next f).getD 0 + 1
+    let r := stepOpenReq cfg dr s f svcType ntf script true
+    r.2 = some (f, n) ∧ lget r.1.st.fronts (f, n) = none ∧ r.1.st.closing = [] ∧
+    (∀ a e rs rp, r.1.obs = .ran a e rs rp → rp = .none) := by
+  intro n r
+  have hobs : (stepF cfg dr s (.openC f)).obs = .opened n := by
+    simp [stepF, step, hf, silence, n]
+  have hr : r = (⟨(stepF cfg dr (markClosing (stepF cfg dr s (.openC f)).st (f, n)) (.req (f, n) svcType ntf script)).st,
+      (stepF cfg dr (markClosing (stepF cfg dr s (.openC f)).st (f, n)) (.req (f, n) svcType ntf script)).obs,
+      (stepF cfg dr s (.openC f)).evs ++ (stepF cfg dr (markClosing (stepF cfg dr s (.openC f)).st (f, n)) (.req (f, n) svcType ntf script)).evs,
+      (stepF cfg dr s (.openC f)).gone ++ (stepF cfg dr (markClosing (stepF cfg dr s (.openC f)).st (f, n)) (.req (f, n) svcType ntf script)).gone⟩, some (f, n)) := by
+    simp only [r, stepOpenReq, hobs, if_true]
+  have hmem := request_keeps_closed_flags (dr := dr) cfg (markClosing (stepF cfg dr s (.openC f)).st (f, n)) (f, n) (f, n)
+    svcType ntf script (markClosing_mem _ _)
+  have hq := queued_removals_run_at_turn_end (dr := dr) cfg (markClosing (stepF cfg dr s (.openC f)).st (f, n))
+    (.req (f, n) svcType ntf script) (f, n)
+  refine ⟨by rw [hr], by rw [hr]; exact hq.1 hmem, by rw [hr]; exact hq.2.2.1, ?_⟩
+  intro a e rs rp h
+  rw [hr] at h
+  simp only at h
+  generalize markClosing (stepF cfg dr s (.openC f)).st (f, n) = S at h hmem
+  cases hso : (step cfg dr S (.req (f, n) svcType ntf script)).obs with
+  | ran a' e' rs' r' =>
+    rw [answer_to_closed_socket_is_lost (dr := dr) cfg S (f, n) svcType ntf script a' e' rs' r' hso] at h
+    rcases request_answer_ok_or_none (dr := dr) cfg S (f, n) svcType ntf script a' e' rs' r' hso with h1 | h1
+    · subst h1
+      rw [if_pos ⟨rfl, hmem⟩] at h
+      cases h; rfl
+    · subst h1
+      simp at h
+      exact h.2.2.2.symm
+  | _ => simp [stepF, hso, silence] at h
+
 section Examples
 
 def cfgX : Cfg :=
@@ -1089,6 +1454,34 @@ example : bD16.dirt = true ∧ bD16pre.dirt = false ∧ (backPush cfgX sD16 bD16
     (backPush cfgX sD16 bD16pre).2.2.1 = Res.ok ∧
     -- repaired: the same sequence delivers
     (lget (backPush cfgX sD16 bD16fix).1.fronts c1).bind (fun m' => lget m' "k") = some (.other "f5" "f5" true) := by
+  decide
+
+
+/-- the handover on the concrete node: the first message of a connection opened while the front-end is busy is
+forwarded (rule-less type `room`) with the id `AddSession` has just assigned; the hypothesis of
+`first_message_before_registration_is_of_the_new_connection` / `forwarded_envelope_names_the_connection` is met -/
+example : (match (stepOpenReq cfgR (defaultRoute cfgR none) (run cfgR none (State.init : State Tok) [.openC "gate-1"]).1
+      "gate-1" "room" false [.id]).1.obs with
+    | .ran a (some e) _ r => some (a, e.frontId, e.sessionId, e.uid, r)
+    | _ => none) = some ("room-1", "gate-1", 2, "", Resp.ok) := by
+  decide
+
+/-- a forward event inside a history, as `every_forward_carries_identity_as_of_then` wants it -/
+example : ((run cfgR none (State.init : State Tok) [.openC "gate-1", .req ("gate-1", 1) "gate" false [.bind "u7"],
+      .req ("gate-1", 1) "room" false [.id]]).2.filterMap fun e => match e with
+    | .fwd c t id fr sid => some (c, t, id, fr, sid)
+    | _ => none) = [(("gate-1", 1), "room-1", "u7", "gate-1", 1)] := by
+  decide
+
+/-- the hang-up variant on the concrete node: the front-local handler of the first message still runs on the
+session (`bind`), its answer is lost, the close handler is handed the map WITH the bound uid, the connection is gone -/
+def hangupR : TurnR Tok × Option Conn :=
+  stepOpenReq cfgR (defaultRoute cfgR none) (State.init : State Tok) "gate-1" "gate" false [.bind "u7", .id] true
+
+example : hangupR.2 = some ("gate-1", 1) ∧
+    (match hangupR.1.obs with | .ran a none rs rp => some (a, rs.length, rp) | _ => none) = some ("gate-1", 2, Resp.none) ∧
+    hangupR.1.st.fronts.length = 0 ∧
+    (hangupR.1.gone.map fun e => (e.1, lget e.2 "_ID")) = [(("gate-1", 1), some (.str "u7" "u7"))] := by
   decide
 
 end Examples
